@@ -176,6 +176,8 @@ fn fit_to_bezpath_rec(
     accuracy: f64,
     path: &mut BezPath,
 ) {
+    #[cfg(kurbo_verif)]
+    crate::verif_hooks::tick();
     let start = range.start;
     let end = range.end;
     let start_p = source.sample_pt_tangent(range.start, 1.0).p;
@@ -570,6 +572,8 @@ pub fn fit_to_bezpath_opt(source: &impl ParamCurveFit, accuracy: f64) -> BezPath
     let mut path = BezPath::new();
     let mut t0 = 0.0;
     loop {
+        #[cfg(kurbo_verif)]
+        crate::verif_hooks::tick();
         let t1 = cusps.last().copied().unwrap_or(1.0);
         match fit_to_bezpath_opt_inner(source, accuracy, t0..t1, &mut path) {
             Some(t) => cusps.push(t),
@@ -612,6 +616,8 @@ fn fit_to_bezpath_opt_inner(
     let mut n = 0;
     let last_err;
     loop {
+        #[cfg(kurbo_verif)]
+        crate::verif_hooks::tick();
         n += 1;
         match fit_opt_segment(source, accuracy, t0..t1) {
             FitResult::ParamVal(t) => t0 = t,
